@@ -164,7 +164,7 @@ def oracle_c05(tr, stats, firmware):
                 if f[0] == "G11" and not f[2]:
                     out.append(viol(tr, r, "firmware-recover-without-retract", "G11 reaches the printer while it is not retracted"))
                 want = tr.case.get("fwparam", "")
-                if f[1] != want:
+                if "".join(f[1].split()).upper() != "".join(want.split()).upper():       # word letters are case-insensitive
                     out.append(viol(tr, r, "firmware-parameters-lost", "%s carries parameters %r, the file's G10 has %r" % (f[0], f[1], want)))
             if B["fw"] and not A["fw"]:
                 out.append(viol(tr, r, "firmware-shallower-than-file", "file is firmware-retracted, the printer is not"))
@@ -423,7 +423,8 @@ class C04(ExtrusionMonitor):
     assumptions = C01.assumptions
     classes = [(3, "e-only", mk(arcs=True)), (2, "e-only-inch", mk(inch=True)), (2, "e-only-rel-xyz", mk(rel=True)),
                (2, "firmware", mk(fw=True, inch=True)), (2, "g92e-while-retracted", mk(g92e_retracted=True, g92e_entry=True, p_inside=0.5)),
-               (1, "at", mk(at=True)), (1, "addregion", mk(addregion=True))]
+               (1, "at", mk(at=True)), (1, "addregion", mk(addregion=True)),
+               (2, "spelled", mk(arcs=True, rel=True, spell=True, p_inside=0.5))]
 
     def oracle(self, tr, stats, case):
         return oracle_c04(tr, stats)
@@ -458,7 +459,8 @@ class C05(ExtrusionMonitor):
                (2, "e-only-g92e", mk(g92e_retracted=True, g92e_entry=True, p_inside=0.5)), (1, "e-only-at", mk(at=True)),
                (2, "relative-extrusion", mk(rel=True, g90e=True, p_inside=0.5, g92e_retracted=True)),
                (1, "relative-extrusion-firmware", mk(rel=True, g90e=True, fw=True, p_inside=0.5)),
-               (1, "e-only-arcs", mk(arcs=True))]
+               (1, "e-only-arcs", mk(arcs=True)), (2, "spelled", mk(spell=True, rel=True, p_inside=0.5)),
+               (1, "spelled-firmware", mk(spell=True, fw=True, p_inside=0.5))]
 
     def oracle(self, tr, stats, case):
         return oracle_c05(tr, stats, bool(case.get("fw")))
@@ -520,7 +522,8 @@ class C14(MotionMonitor):
     assumptions = C01.assumptions
     classes = [(3, "default-table", mk(at=True, rel=True, arcs=True)), (2, "inch", mk(at=True, inch=True, rel=True)),
                (2, "firmware", mk(at=True, fw=True)), (1, "addregion", mk(at=True, addregion=True)),
-               (1.5, "arcs-under-g91", mk(at=True, rel=True, arcs=True, arcs_rel=True))]
+               (1.5, "arcs-under-g91", mk(at=True, rel=True, arcs=True, arcs_rel=True)),
+               (1, "spelled", mk(at=True, rel=True, arcs=True, spell=True))]
 
     exhaustive_what = ("every event sequence over {retract, recover, print inside/outside, travel inside/outside, disable @-command, "
                        "enable @-command} with matched cycles up to length 4 (quick) / 6 (thorough), E-only and firmware retraction")
